@@ -62,6 +62,10 @@ def corpus_histories() -> List[Dict[str, Any]]:
                 out.append({'name': os.path.relpath(p, core.VERIF), 'history': doc['history']})
             for k, h in (doc.get('histories') or {}).items():
                 out.append({'name': os.path.relpath(p, core.VERIF) + '#' + k, 'history': h})
+            # histories outside the environment assumptions (e.g. updates committed out of order): compared model-vs-implementation
+            # after every op like all others, but not judged by the family oracles (whose statements assume good histories)
+            for k, h in (doc.get('tie_only') or {}).items():
+                out.append({'name': 'tieonly/' + os.path.relpath(p, core.VERIF) + '#' + k, 'history': h})
     return out
 
 
@@ -150,6 +154,11 @@ def correspond(ctx) -> Corr:
     return out
 
 
+# oracle keys whose theorem is proved for ARBITRARY states (Props_C08: C08_bad_bunch_rejected, C08_rejected_unchanged): a history need
+# not satisfy the environment assumptions for them to count as a failing input
+ANY_STATE_KEYS = {'C08': ['C08:accepted-', 'C08:rejected-submission-changed-state', 'C08:bunch-colliding']}
+
+
 def oracle_for(pid: str):
     props = {pid}
 
@@ -218,6 +227,33 @@ def oracle_for(pid: str):
                         add(f.key, f.detail, hh, f.index, 'legal-filtered:' + name)
             except (core.CoqEvalError, core.ImplCrash) as e:
                 keys_seen['search-error:' + type(e).__name__] = 1
+            # oracle clauses whose theorem holds in EVERY state (no environment assumption) are evaluated on the unfiltered
+            # histories as well: tie disagreements first, then the tie-only corpus and the free-mode histories
+            anyk = ANY_STATE_KEYS.get(pid)
+            if anyk:
+                cand = []
+                for d in (doc['corr'].disagreements if doc.get('corr') is not None else []):
+                    hh = (d.case or {}).get('history') if isinstance(d.case, dict) else None
+                    if hh:
+                        cand.append(('tie-disagreement', hh, None))
+                for name, hh, ents in zip(doc['names'], doc['histories'], impl['results']):
+                    if name.startswith('tieonly/') or name.startswith('random:'):
+                        cand.append((name, hh, ents))
+                need = [c for c in cand if c[2] is None]
+                if need:
+                    try:
+                        res = C.run_impl(ctx, [c[1] for c in need], 'all')
+                        it = iter(res['results'])
+                        cand = [(n, hh, e if e is not None else next(it)) for n, hh, e in cand]
+                    except core.ImplCrash:
+                        cand = [c for c in cand if c[2] is not None]
+                for name, hh, ents in cand:
+                    n_hist += 1
+                    n_ops += len(hh)
+                    found, _hist, _last = oracles.check_history(hh, ents, props)
+                    for f in found:
+                        if any(f.key.startswith(q) for q in anyk):
+                            add(f.key, f.detail, hh, f.index, 'any-state:' + name)
         stats = {'evaluations': n_hist, 'distinct_nontrivial': len({json.dumps(h, sort_keys=True) for h in doc['histories'] if len(h) >= 5}),
                  'rule': f'oracle {pid}: property statement recomputed from the observable projection after every op of every history '
                          f'(harness/batchdb/oracles.py); {n_ops} ops',
